@@ -141,9 +141,10 @@ def may_contain(outer, inner, bounds=None):
 
 
 class Edge:
-    __slots__ = ("dst", "kind", "op", "chain", "dst_ty", "subst", "rsubst", "site", "cs")
+    __slots__ = ("dst", "kind", "op", "chain", "dst_ty", "subst", "rsubst", "site", "cs", "blind")
 
     def __init__(self, dst, kind, op, chain=None, dst_ty=None, subst=None, rsubst=None, site=None, cs=None):
+        self.blind = False      # element-blind: only a taint of the whole source passes (typed propagation)
         self.cs = cs            # call-string action: ("in", site, callee_body) / ("out", site, callee_body)
         self.dst = dst
         self.kind = kind
@@ -155,6 +156,7 @@ class Edge:
         self.site = site
 
 
+TRANSFORMING = ("map", "filter_map", "flat_map", "map_while")
 LAZY_ADAPTORS = ("zip", "chain", "enumerate", "rev", "skip", "take", "step_by", "peekable", "cloned", "copied")
 ADAPTOR_TRAITS = ("std::iter::Iterator", "std::iter::DoubleEndedIterator", "rayon::iter::IndexedParallelIterator",
                   "rayon::iter::ParallelIterator")
@@ -672,8 +674,22 @@ class Graph:
             if name in VARIANT_FOREIGN:
                 opk = DISCR
             if t.get("callee_trait") not in RESULT_INDEPENDENT_TRAITS:
-                for a in args:
+                # `it.map(f)` / `filter_map` / `flat_map`: the elements of the result are what the closure returns
+                # (closure parameter and return edges are added below); the input iterator itself only decides how
+                # many there are
+                transforming = name in TRANSFORMING and t.get("callee_trait") in ADAPTOR_TRAITS and \
+                    any(c in self.scope for (c, _l, _ic) in closures)
+                for a, l in zip(args, arg_loc):
+                    is_clo = l is not None and b.locals[l].get("closure") in self.scope
+                    n0 = self.n_edges
                     self._read_op(b, a, d, DATA, opk, dst_ty, site)
+                    if transforming and not is_clo and a["k"] in ("copy", "move") and self.n_edges > n0:
+                        # the edges just added keep their kind (structural walks still see `map` as a call that
+                        # carries its input along) but are blind to the elements
+                        for src_node in [(bid, a["pl"]["l"])] + [("FIELD", ce[2], ce[3]) for ce in self._place_chain(b, a["pl"]) if ce[0] == "f" and ce[2] and ce[3] is not None]:
+                            for ed in self.fwd.get(src_node, [])[-4:]:
+                                if ed.dst == d and ed.site == site and ed.op == opk:
+                                    ed.blind = True
             muts = [l for l in arg_loc if l is not None and self._mutb(b, l)]
             if name in LAZY_ADAPTORS and t.get("callee_trait") in ADAPTOR_TRAITS:
                 muts = []   # builds a lazy adaptor around its operands: nothing is advanced or written
@@ -738,7 +754,7 @@ class Graph:
         whole = self._is_whole(n, ty)
         cur = ty
         op = e.op
-        if op == DISCR:
+        if op == DISCR or (e.blind and op == "foreign"):
             op = SHAPE
         # 1. read-side projection chain
         if op in (FIELDSRC, "fieldshape"):
@@ -809,7 +825,14 @@ class Graph:
                 if dty is None or c is None or may_contain(dty, c, self.node_bounds(e.dst)):
                     out.append(c)
                 elif op == "hof" and not whole:
-                    # an element handed to a closure parameter that cannot hold it
+                    # a container / iterator of X handed to a closure that takes X: the closure sees the elements
+                    # (type arguments may be spelled differently on the two sides - `Self::Commitment` vs the
+                    # concrete type - so the head of the parameter type is what is looked for)
+                    head = re.sub(r"<.*$", "", strip_refs(dty or "")).rsplit("::", 1)[-1]
+                    if head and len(head) > 1 and c is not None and \
+                            re.search(r"(?<![A-Za-z0-9_])%s(?![A-Za-z0-9_])" % re.escape(head), c) is not None:
+                        out.append(dty)
+                    # otherwise: an element handed to a closure parameter that cannot hold it
                     continue
                 else:
                     # embedded in a value whose type does not spell out its contents (a struct literal, a
